@@ -606,6 +606,15 @@ func (e *Eval) compile(node ast.Node) error {
 		//
 		e.changeOperand(jumpEnd, len(e.instructions))
 
+		// Finally add a "Nop" instruction, one that will not
+		// be optimized away - as we do for if, while, foreach & switch.
+		//
+		// Our "jmp END" must have an instruction to land on, even when
+		// the ternary is the last thing in the program, and the
+		// optimizer must not combine a constant from the second arm
+		// with whatever follows the join.
+		e.emit(code.OpPlaceholder)
+
 	case *ast.SwitchExpression:
 
 		//
